@@ -122,7 +122,7 @@ func init() {
 			}
 		case *Term:
 			if m.model == nil || !m.evalBool(c) {
-				r, model := m.solver.Check(c, true)
+				r, model := m.query(c, true)
 				if r == Unsat {
 					panic(pathEnd{kind: "assume"})
 				}
@@ -624,6 +624,9 @@ func init() {
 	reg("strings.noescape", func(m *Machine, fr *frame, a []Value) Value { return a[0] })
 
 	// ------------------------------------------------------------ math/bits
+	// bits.Len of a symbolic word sits under every protobuf varint size computation ((Len64(x|1)+6)/7):
+	// it is concretised (one fork per feasible bit length, i.e. a range constraint on x), which keeps
+	// the size arithmetic concrete instead of handing the solver a division by 7.
 	reg("math/bits.Len64", func(m *Machine, fr *frame, a []Value) Value { return m.bitsLen(a[0], 64) })
 	reg("math/bits.Len", func(m *Machine, fr *frame, a []Value) Value { return m.bitsLen(a[0], 64) })
 	reg("math/bits.Len32", func(m *Machine, fr *frame, a []Value) Value { return m.bitsLen(a[0], 32) })
@@ -861,4 +864,37 @@ func (m *Machine) bitsTZ(x Value, w int) Value {
 		res = p.Ite(bit, p.ConstU(uint64(i), 64), res)
 	}
 	return simp(res, true)
+}
+
+// sovIntrinsic models the generated protobuf helpers `func sovX(x uint64) int { return (bits.Len64(x|1) + 6) / 7 }`
+// as a threshold chain (no division); the result is the varint size 1..10.
+func sovIntrinsic(m *Machine, fr *frame, a []Value) Value {
+	if c, ok := a[0].(int64); ok {
+		n := int64(1)
+		for u := uint64(c); u >= 0x80; u >>= 7 {
+			n++
+		}
+		return n
+	}
+	t := a[0].(*Term)
+	p := m.pool
+	res := p.ConstU(1, 64)
+	for k := 1; k <= 9; k++ {
+		ge := p.BvCmp("bvuge", t, p.ConstBV(new(big.Int).Lsh(big.NewInt(1), uint(7*k)), 64))
+		res = p.Ite(ge, p.ConstU(uint64(k+1), 64), res)
+	}
+	return simp(res, true)
+}
+
+func isSovFunc(fn *ssa.Function) bool {
+	if !strings.HasPrefix(fn.Name(), "sov") || fn.Signature.Recv() != nil {
+		return false
+	}
+	ps, rs := fn.Signature.Params(), fn.Signature.Results()
+	if ps.Len() != 1 || rs.Len() != 1 {
+		return false
+	}
+	pb, ok1 := ps.At(0).Type().(*types.Basic)
+	rb, ok2 := rs.At(0).Type().(*types.Basic)
+	return ok1 && ok2 && pb.Kind() == types.Uint64 && rb.Kind() == types.Int
 }
